@@ -4,7 +4,7 @@ from props import endpoint
 
 
 def check(pid, tier, replay):
-    names = ["da", "db", "dh", "h0", "lb", "m"] if tier == "thorough" else ["a", "b", "h", "h0", "lb", "m"]
+    names = ["da", "db", "dh", "h0", "lb", "lp", "m"] if tier == "thorough" else ["a", "b", "h", "h0", "lb", "lp", "m"]
     gens = [("endpoint/CreditGen", "endpoint/CreditGen_%s.cfg" % n) for n in names]
     models = [("endpoint/Credit", "endpoint/Credit.cfg"), ("endpoint/CreditWake", "endpoint/CreditWake.cfg")]
     if not replay:
